@@ -104,7 +104,7 @@ class SchemaSim final : public Engine {
     std::string def;
     if (r.Pct(static_cast<int>(c.C("p_dup", 8)))) {   // duplicate of an existing definition (same text or same tree, different spelling)
       std::vector<std::string> defs; for (const auto uid : f.List()) if (!f.GetRS(uid).definition.empty() && (f.GetRS(uid).type == type || r.Pct(20))) defs.push_back(f.GetRS(uid).definition);   // mostly of the same kind: only those are duplicates
-      if (!defs.empty()) { def = r.Pick(defs); c.Probe("duplicate_definition_generated"); dupPending = 3; if (r.Pct(40)) def = r.Pct(50) ? " " + def + " " : "(" + def + ")"; return def; }
+      if (!defs.empty()) { def = r.Pick(defs); c.Probe("duplicate_definition_generated"); dupPending = 3; if (r.Pct(40)) def = r.Pct(35) ? exprgen::Regroup(r, def) : r.Pct(50) ? " " + def + " " : "(" + def + ")"; return def; }
     }
     switch (type) {
     case CstType::base: case CstType::constant: def = r.Pct(92) ? "" : g.TopLevel(false); break;
